@@ -518,7 +518,7 @@ func (e *fnEnc) unop(i *ssa.UnOp) {
 	case token.MUL: // load
 		T := i.Type()
 		var t string
-		if lv, ok := e.lvs[i.X]; ok {
+		if lv, ok := e.lvOf(i.X); ok {
 			t = e.load(lv)
 		} else {
 			r := e.term(i.X)
@@ -617,7 +617,7 @@ func (e *fnEnc) fieldAddr(i *ssa.FieldAddr) {
 	pt := i.X.Type().Underlying().(*types.Pointer).Elem()
 	st := pt.Underlying().(*types.Struct)
 	ft := st.Field(i.Field).Type()
-	if base, ok := e.lvs[i.X]; ok {
+	if base, ok := e.lvOf(i.X); ok {
 		sn := e.S().SortOf(pt)
 		nlv := *base
 		nlv.Path = append(append([]pathStep{}, base.Path...), pathStep{field: e.S().fieldSel(sn, st.Field(i.Field).Name(), i.Field), sortN: sn, fidx: i.Field, inT: pt})
@@ -653,7 +653,7 @@ func (e *fnEnc) indexAddr(i *ssa.IndexAddr) {
 		at := xt.Elem().Underlying().(*types.Array)
 		e.safety("bounds", "index", fmt.Sprintf("(and (>= %s 0) (< %s %d))", idx, idx, at.Len()), i.Pos(), "array index out of range")
 		var base *LValue
-		if b, ok := e.lvs[i.X]; ok {
+		if b, ok := e.lvOf(i.X); ok {
 			base = b
 		} else {
 			r := e.term(i.X)
@@ -691,7 +691,7 @@ func (e *fnEnc) index(i *ssa.Index) {
 
 func (e *fnEnc) storeInstr(i *ssa.Store) {
 	v := e.term(i.Val)
-	if lv, ok := e.lvs[i.Addr]; ok {
+	if lv, ok := e.lvOf(i.Addr); ok {
 		e.store(lv, v)
 		return
 	}
@@ -882,7 +882,7 @@ func (e *fnEnc) slice(i *ssa.Slice) {
 		e.safety("bounds", "slice", fmt.Sprintf("(and (<= 0 %s) (<= %s %s) (<= %s %d))", lo, lo, hi, hi, n), i.Pos(), "slice bounds out of range")
 		// copy the array contents into the element heap under the array's own reference
 		var arr string
-		if lv, ok := e.lvs[i.X]; ok {
+		if lv, ok := e.lvOf(i.X); ok {
 			arr = e.load(lv)
 		} else {
 			arr = e.loadPtr(x, xt.Elem())
@@ -942,6 +942,8 @@ func (e *fnEnc) next(i *ssa.Next) {
 			e.vc.assume(e.typeFacts(kn, mt.Key(), 1))
 			e.vc.assume(e.typeFacts(vn, mt.Elem(), 2))
 			k := e.mapKey(kn, mt.Key())
+			e.vc.declFun("maplen", "((Array Int Bool)) Int")
+			e.vc.assume(sImp(okn, fmt.Sprintf("(> (maplen (select %s %s)) 0)", e.heap(e.S().MapHasKey(mt)), m)))
 			e.vc.assume(sImp(okn, sAnd(fmt.Sprintf("(not (= %s 0))", m),
 				fmt.Sprintf("(select (select %s %s) %s)", e.heap(e.S().MapHasKey(mt)), m, k),
 				sEq(vn, fmt.Sprintf("(select (select %s %s) %s)", e.heap(e.S().MapValKey(mt)), m, k)))))
